@@ -327,13 +327,37 @@ def compare_runs(entry, target, base_out, out, ctx):
     return labels
 
 
-def run_chain(spec, F=None, context="", from_file=False, compare=False, all_row=0):
-    """stages after (and including, when F is None) the framework load. returns (labels, result)"""
+ORDERS = ["reread", "prefill", "same-object"]
+VALUES = ["as-spec", "constant", "years"]
+
+
+def with_values(spec, how):
+    """the same numbers entered the other way: every compartment / characteristic / parameter series as a constant, or as year values"""
+    if how == "as-spec":
+        return spec
+    spec = copy.deepcopy(spec)
+    timed = {p["name"] for p in spec["pars"] if p.get("timed")}
+    y0 = float(spec["data"]["years"][0])
+    for q, bypop in spec["data"]["q"].items():
+        for pop, d in bypop.items():
+            if how == "constant" and d.get("t"):
+                bypop[pop] = {"a": d["v"][0]}
+            elif how == "years" and d.get("a") is not None and not d.get("t") and q not in timed:  # (the table of a timed parameter has no year columns)
+                bypop[pop] = {"t": [y0], "v": [d["a"]]}
+            if d.get("s") is not None:
+                bypop[pop]["s"] = d["s"]
+    return spec
+
+
+def run_chain(spec, F=None, context="", from_file=False, compare=False, all_row=0, order="reread", values="as-spec"):
+    """stages after (and including, when F is None) the framework load. returns (labels, result).
+    order: 'reread' = write the blank databook, read it back, fill the copy that was read; 'prefill' = fill the new in-memory object before it is
+    written for the first time; 'same-object' = write the blank databook (and check it reads back), then fill the SAME object and write it again"""
     at = _at()
     import numpy as np
 
-    labels = []
-    spec = with_all_years(spec)
+    labels = ["order:" + order, "values:" + values]
+    spec = with_values(with_all_years(spec), values)
     path = None
     try:
         if F is None:
@@ -355,10 +379,17 @@ def run_chain(spec, F=None, context="", from_file=False, compare=False, all_row=
         pops, transfers = _pops_arg(spec)
         with _Stage("databook-new", context):
             D0 = at.ProjectData.new(F, np.array(spec["data"]["years"], dtype=float), pops=pops, transfers=transfers)
+        if order == "prefill":
+            with _Stage("databook-new", context):
+                D1 = at.ProjectData.new(F, np.array(spec["data"]["years"], dtype=float), pops=pops, transfers=transfers)
         with _Stage("databook-write", context):
             ss0 = D0.to_spreadsheet()
         with _Stage("databook-read", context):
-            D1 = at.ProjectData.from_spreadsheet(ss0, F)
+            Dr = at.ProjectData.from_spreadsheet(ss0, F)
+        if order == "reread":
+            D1 = Dr
+        elif order == "same-object":
+            D1 = D0
         fill_data(D1, spec)
         if all_row and D1.tdve:
             # a quantity may be entered as an 'All' row standing in for a population without a row of its own (data.py:504-510, parameters.py:408-414)
@@ -688,7 +719,11 @@ def check(case):
     if case.get("mode") == "chain":
         spec = case["spec"]
         h = int(case_hash(spec), 16)
-        labels, _ = run_chain(spec, from_file=(h % 3 == 0), compare=(h % 4 == 0), all_row=(1 + h // 7 if h % 5 == 0 else 0), context="valid generated framework")
+        order = case.get("order") or ORDERS[(h // 11) % 3]
+        values = case.get("values") or VALUES[(h // 13) % 3]
+        if order not in ORDERS or values not in VALUES:
+            raise HarnessError("unknown chain order / values %r %r" % (order, values))
+        labels, _ = run_chain(spec, from_file=(h % 3 == 0), compare=(h % 4 == 0), all_row=(1 + h // 7 if h % 5 == 0 else 0), order=order, values=values, context="valid generated framework (databook %s, values %s)" % (order, values))
         return {"nontrivial": True, "labels": ["mode:chain"] + labels + [l for l in spec.get("labels", []) if l.startswith(("has:", "junction:res", "timed:group", "par:function", "par:agg", "pops:"))]}
     return check_mut(case)
 
@@ -753,7 +788,7 @@ def cases(draw, tier):
     kind = draw(st.sampled_from(["chain"] * 4 + ["fw"] * 8 + ["db"] * 3 + ["pb"] + ["lib"] * 2))
     if kind == "chain":
         prof = {} if tier == "quick" else {"max_ord": 6, "max_pops": 4}
-        return {"mode": "chain", "spec": draw(gen_model.model_specs(prof))}
+        return {"mode": "chain", "spec": draw(gen_model.model_specs(prof)), "order": draw(st.sampled_from(ORDERS)), "values": draw(st.sampled_from(VALUES))}
     site = draw(st.integers(0, SITE_RANGE - 1))
     if kind == "lib":
         target = draw(st.sampled_from(["framework", "framework", "databook", "progbook"]))
@@ -808,8 +843,17 @@ def static_cases(tier):
             yield {"mode": "mut", "base": {"lib": name}, "entry": "db.identity", "site": 0}
         if os.path.exists(_lib_path(name, "progbook")):
             yield {"mode": "mut", "base": {"lib": name}, "entry": "pb.identity", "site": 0}
-    yield {"mode": "chain", "spec": SMALL_SPEC}
+    for order in ORDERS:
+        for values in VALUES:
+            yield {"mode": "chain", "spec": SMALL_SPEC, "order": order, "values": values}
+    # rules that are stated name by name (reserved names): every site on the small fixed model, in every run
     if tier != "thorough":
+        for target in ("framework", "databook"):
+            ex = [e for e in cat.entries_for(target) if e.exhaustive]
+            counts = site_counts({"gen": SMALL_SPEC}, target) if ex else {}
+            for e in ex:
+                for k in range(2, counts.get(e.id, 0)):  # (sites 0 and 1 are part of the loop below)
+                    yield {"mode": "mut", "base": {"gen": SMALL_SPEC}, "entry": e.id, "site": k}
         # every catalogue entry once on the small fixed model, so that each rule is exercised in every run whatever the seed
         for e in cat.ENTRIES.values():
             if not e.id.endswith(".identity"):
@@ -825,7 +869,7 @@ def static_cases(tier):
             for eid, n in site_counts(base, target).items():
                 if eid.endswith(".identity"):
                     continue
-                for k in range(min(n, cap)):
+                for k in range(n if (cat.ENTRIES[eid].exhaustive and base.get("gen") is SMALL_SPEC) else min(n, cap)):
                     yield {"mode": "mut", "base": base, "entry": eid, "site": k}
 
 
